@@ -45,6 +45,7 @@ BaseField(f, i) ==
     [] f.k = "char"   -> {<<f.name, 33 + i>>}
     [] f.k = "enum"   -> {<<f.name, MaxName(f.table)>>}
     [] f.k = "flags"  -> {<<f.name, SetToSeq({n \in DOMAIN f.table : (MinBit(f.table[n]) + i) % 2 = 0})>>}
+    [] f.k = "rstr"   -> {<<f.name, T(5, 65 + i)>>}
     [] f.k = "str"    -> {<<f.name, IF f.w = 8 /\ f.name = "version" THEN <<48, 46, 55, 69>> ELSE T(IF f.w > 6 THEN 5 + (i % 2) ELSE 2, 65 + i)>>}
     [] f.k = "vstr"   -> {<<f.name, T(5, 97 + i)>>}
     [] f.k = "dur"    -> {<<f.name, IF f.w = 2 THEN Dur((1234 + i) * f.scale) ELSE Dur((100000 + i) * f.scale)>>}
@@ -107,6 +108,8 @@ FieldDom(f, base) ==
     [] f.k = "flags"  -> {<<>>, SetToSeq(DOMAIN f.table)} \cup {<<n>> : n \in DOMAIN f.table}
                          \cup (IF Deep THEN {SetToSeq({n, m}) : n \in DOMAIN f.table, m \in DOMAIN f.table}
                                           \cup {SetToSeq(DOMAIN f.table \ {n}) : n \in DOMAIN f.table} ELSE {})
+    \* raw text: ASCII of several lengths and text that is not ASCII (2- and 3-byte UTF-8)
+    [] f.k = "rstr"   -> {T(n, 97) : n \in {0, 1, f.w - 1}} \cup {<<112, 228, 115, 115>>, <<1087, 1072>>, <<97, 8364>>}
     [] f.k = "str"    -> IF f.name = "version" THEN {<<48, 46, 54, 86, 51>>, <<48, 46, 55, 70, 49, 50>>} ELSE {T(n, 97) : n \in (IF Deep THEN 0..(f.w - 1) ELSE {0, 1, f.w - 1})}
     [] f.k = "vstr"   -> {T(n, 65) : n \in (IF Deep THEN 1..(f.max - 1) ELSE {1, 2, 3, 4, 5, 8, f.max - 3, f.max - 1})}
     [] f.k = "dur"    -> IF f.w = 2 THEN {Dur(0), Dur(f.scale), Dur(65535 * f.scale)}
@@ -122,9 +125,10 @@ FieldDom(f, base) ==
     [] f.k = "nibhi"  -> 0..15
     [] f.k = "arren"  -> {[j \in 1..f.cnt |-> n] : n \in DOMAIN f.table}
     [] f.k = "arru8"  -> {[j \in 1..f.cnt |-> 0], [j \in 1..f.cnt |-> 255 - j]}
-    [] f.k = "vec"    -> {[j \in 1..n |-> BaseRec(f.sub, j)] : n \in (IF Tier = "quick" THEN {0, 1, 3} ELSE 0..8)}
-    [] f.k = "vecw32" -> {[j \in 1..n |-> <<j, 7>>] : n \in {0, 1, 3}}
-    [] f.k = "vecip"  -> {[j \in 1..n |-> <<j, 2, 3, 4>>] : n \in {0, 1, 3}}
+    \* element counts: few, and the protocol maximum (frames of several hundred bytes: size bytes above 63 in compressed mode)
+    [] f.k = "vec"    -> {[j \in 1..n |-> BaseRec(f.sub, j)] : n \in (IF Tier = "quick" THEN {0, 1, 3} ELSE 0..8) \cup {f.pmax}}
+    [] f.k = "vecw32" -> {[j \in 1..n |-> <<j, 7>>] : n \in {0, 1, 3, f.pmax}}
+    [] f.k = "vecip"  -> {[j \in 1..n |-> <<j, 2, 3, 4>>] : n \in {0, 1, 3, f.pmax}}
     [] f.k = "small"  -> AllSmall
     [] f.k = "cim"    -> AllCim
     [] f.k = "cars"   -> {<<>>, SetToSeq(DOMAIN PlcCarsT)} \cup {<<n>> : n \in DOMAIN PlcCarsT}
@@ -163,6 +167,10 @@ Hostile(kind) ==
   FlattenSeq([i \in 1..Len(fs) |->
      CASE fs[i].k \in {"vec", "vecw32", "vecip"} ->
              LET cs == SetToSeq(CountsOf(fs[i], hdr)) IN [c \in 1..Len(cs) |-> [b EXCEPT ![fs[i].name] = [j \in 1..cs[c] |-> ElemOf(fs[i], j)]]]
+       \* variable texts of exactly the maximum and beyond: cut to the field (IS_MTC keeps its terminator); IS_MSO is built by
+       \* its own writer and is covered by the MsoDec events
+       [] fs[i].k = "vstr" /\ kind # "Mso" ->
+             <<[b EXCEPT ![fs[i].name] = T(fs[i].max, 65)], [b EXCEPT ![fs[i].name] = T(fs[i].max + 1, 66)], [b EXCEPT ![fs[i].name] = T(fs[i].max + 6, 67)]>>
        [] fs[i].k = "dur" -> <<[b EXCEPT ![fs[i].name] = DurL(IF fs[i].w = 2 THEN (IF fs[i].scale = 10 THEN Mul10(<<0, 1, 0, 0>>) ELSE <<0, 1, 0, 0>>)
                                                                          ELSE (IF fs[i].scale = 10 THEN Mul10(<<0, 0, 1, 0>>) ELSE <<0, 0, 1, 0>>))]>>
        [] fs[i].k = "struct" /\ \E g \in 1..Len(fs[i].sub) : fs[i].sub[g].k = "nib" ->
